@@ -1,2 +1,55 @@
-From Cmr Require Import Base Det GraphModel.
-Theorem placeholder_C05 : True. Proof. exact I. Qed.
+(* Properties_C05.v — C05: graphic / cographic recognition; the returned graph reproduces the matrix. *)
+From Coq Require Import Permutation.
+From Cmr Require Import Base Det BaseProofs GraphModel GraphProofs.
+Local Open Scope Z_scope.
+
+(* Certificate soundness, every size: if the checker accepts (G, forest, coforest) for the 0/1 matrix M then the
+   forest has one edge per row and the coforest one per column, all pairwise distinct and covering E(G), the forest
+   edges contain no cycle, and for every column j the rows with a 1 are exactly the edges of a simple forest path
+   between the ends of the j-th coforest edge: M = M(G,T) entry for entry (hence T is a spanning forest: every
+   non-forest edge has its ends joined by T, and T is acyclic). *)
+Theorem C05_certificate_sound : forall m n M G forest coforest,
+  check_graph_cert m n M G forest coforest = true -> is_binary M = true ->
+  exists T C,
+    graph_ok G = true /\
+    lookup_all (g_edges G) forest = Some T /\ length T = m /\
+    lookup_all (g_edges G) coforest = Some C /\ length C = n /\
+    NoDup (forest ++ coforest) /\
+    (forall e, In e (g_edges G) -> In (e_id e) (forest ++ coforest)) /\
+    ~ has_cycle T /\ acyclic T = true /\
+    fund_cycle_spec m n M T C.
+Proof. exact check_graph_cert_sound. Qed.
+Print Assumptions C05_certificate_sound.
+
+(* M(G,T) is uniquely determined by the forest: two matrices accepted for the same certificate are equal *)
+Theorem C05_matrix_determined : forall m n M M' G forest coforest,
+  check_graph_cert m n M G forest coforest = true -> check_graph_cert m n M' G forest coforest = true ->
+  is_binary M = true -> is_binary M' = true -> wf_mat m n M = true -> wf_mat m n M' = true -> M = M'.
+Proof. exact check_graph_cert_functional. Qed.
+Print Assumptions C05_matrix_determined.
+
+(* the acyclicity test by leaf stripping is sound *)
+Theorem C05_acyclic_sound : forall es, acyclic es = true -> ~ has_cycle es.
+Proof. exact acyclic_sound_gen. Qed.
+Print Assumptions C05_acyclic_sound.
+
+(* whenever the judge accepts a "yes" record of CMRgraphicTestMatrix / CMRgraphicTestTranspose: the call succeeded,
+   a graph with forest and coforest was returned, and it reproduces the matrix (its transpose for the transposed
+   entry point) as above *)
+Theorem C05_judge_yes_sound : forall rec tr m0 n0 M0 rc cert w rest,
+  graphic_input rec = Some ((tr, (m0, n0, M0), rc, 1, cert, w), rest) ->
+  judge_graphic rec = 0 ->
+  let '(m, n, M) := oriented tr m0 n0 M0 in
+  is_binary M = true ->
+  rc = 0 /\
+  exists G f c T C, cert = Some (G, f, c) /\
+    lookup_all (g_edges G) f = Some T /\ length T = m /\
+    lookup_all (g_edges G) c = Some C /\ length C = n /\
+    NoDup (f ++ c) /\ (forall e, In e (g_edges G) -> In (e_id e) (f ++ c)) /\
+    ~ has_cycle T /\ fund_cycle_spec m n M T C.
+Proof. exact judge_graphic_yes_sound. Qed.
+Print Assumptions C05_judge_yes_sound.
+
+Example C05_nonvacuous : check_graph_cert 2 1 [[1];[1]] tri [0;1]%nat [2]%nat = true /\
+                         check_graph_cert 2 1 [[1];[0]] tri [0;1]%nat [2]%nat = false.
+Proof. split; vm_compute; reflexivity. Qed.
